@@ -1333,13 +1333,42 @@ def c25_unpack(R):
         construct="_unpack_truisms_or hands back the live disjunct",
     )
     and_arm = [st for st in top.get("'And'", []) if isinstance(st, ast.Return) and st.value is not None]
+    # the And arm hands back every conjunct and, for every conjunct, what it unpacks to - read off the value, whatever
+    # the spelling (set(c.args).union(*[..]), {*c.args} | set.union(*[..]), a loop that was normalised to these)
+    def _and_parts(v):
+        txt = ast.unparse(v)
+        unpack_all = any(
+            isinstance(x, (ast.ListComp, ast.GeneratorExp, ast.SetComp))
+            and len(x.generators) == 1
+            and ast.unparse(x.generators[0].iter) == "c.args"
+            and not x.generators[0].ifs
+            and isinstance(x.elt, ast.Call)
+            and (dotted(x.elt.func) or "").endswith("_unpack_truisms")
+            and len(x.elt.args) == 1
+            and ast.unparse(x.elt.args[0]) == ast.unparse(x.generators[0].target)
+            for x in ast.walk(v)
+        )
+        conjuncts = bool(re.search(r"set\(c\.args\)|frozenset\(c\.args\)|\{\*c\.args\}", txt))
+        return unpack_all, conjuncts
+
+    parts = _and_parts(and_arm[0].value) if len(and_arm) == 1 else (False, False)
     R.check(
-        len(and_arm) == 1 and util.alpha_eq(and_arm[0].value, "set.union(*[Balancer._unpack_truisms(a) for a in c.args])", un),
+        parts[0],
         m,
         un,
         "And -> union over every conjunct",
-        "_unpack_truisms_and no longer unions over every conjunct",
+        "_unpack_truisms_and no longer unions what every conjunct unpacks to",
         construct="_unpack_truisms_and",
+    )
+    R.check(
+        parts[1],
+        m,
+        un,
+        "And -> the conjuncts themselves are handed back as truisms",
+        "_unpack_truisms_and hands back only what the conjuncts unpack to, not the conjuncts: for plain comparisons that is "
+        "nothing, the And is then processed like a comparison (ClaripyBalancerError when VSA decides its first conjunct) or its "
+        "bounds are lost",
+        construct="_unpack_truisms_and hands back the conjuncts",
     )
     rc = tree.func(BAL, "Balancer._reverse_comparison")
     FC = util.Frags(rc)
